@@ -131,6 +131,14 @@ class Executor:
                 self.run_once()
             except PathEnd:
                 pass
+            except Unsupported:
+                # an unsupported construct only matters on a feasible path: decide with the full path condition
+                s = z3.Solver()
+                s.set("timeout", 8000)
+                for f in all_hyps(self.st.pc):
+                    s.add(f)
+                if s.check() != z3.unsat:
+                    raise
             dec.finish_run()
         return list(self.obligations.values())
 
@@ -187,6 +195,9 @@ class Executor:
         c0 = C.Ctx(st, old_heap, st.heap, args)
         for label, f in ct.requires(c0):
             st.assume(f)
+        for label, f in ct.axioms(c0):
+            st.assume(f)
+            self.assumed.add(f"axiom:{label}")
         # vacuity canary: the hypotheses must not be contradictory
         self.regions = ct.finding_regions(c0)
         self.check(z3.BoolVal(False), "canary", "requires-consistent", fi.node.lineno, assume_after=False)
@@ -566,7 +577,7 @@ class Executor:
         if is_for:
             assigned = sorted(set(assigned) | {x.id for x in ast.walk(node.target) if isinstance(x, ast.Name)})
         for n, t in spec.local_types.items():
-            if n in fr.env and fr.env[n] is not UNBOUND:
+            if n in fr.env and fr.env[n] is not UNBOUND and not isinstance(t, list):
                 fr.env[n] = self.coerce(fr.env[n], t)
         pre_env = dict(fr.env)
         saved_pre = getattr(self, "_loop_pre", None)
@@ -589,7 +600,12 @@ class Executor:
                 self.havoc_path(path, fr.env)
             for n in assigned:
                 cur = pre_env.get(n, UNBOUND)
-                if n in spec.local_types and not (isinstance(cur, Ref) and n in spec.modifies):
+                if n in spec.local_types and isinstance(spec.local_types[n], list):
+                    # union-typed local: one alternative per path (a T, or a concrete Python value)
+                    alts = spec.local_types[n]
+                    alt = alts[st.choose(len(alts))]
+                    fr.env[n] = alt.fresh(st, n) if isinstance(alt, T) else alt
+                elif n in spec.local_types and not (isinstance(cur, Ref) and n in spec.modifies):
                     fr.env[n] = spec.local_types[n].fresh(st, n)
                 elif cur is not UNBOUND and cur is not None and not (is_concrete(cur) and not isinstance(cur, (bool, int, float, str))):
                     fr.env[n] = self.fresh_like(cur, n)
@@ -860,12 +876,20 @@ class Executor:
                 o.ensure_order(st)
                 o.ty = t
             return v
+        if isinstance(t, TTuple) and isinstance(v, tuple) and len(v) == len(t.items):
+            return tuple(self.coerce(x, ti) for x, ti in zip(v, t.items))
         if isinstance(t, TStruct) and isinstance(v, RecV):
             return RecV(v.ty, {f: (self.coerce(x, t.fields[f]) if f in t.fields else x) for f, x in v.vals.items()})
         if isinstance(t, (TOpt,)) and not (isinstance(v, SV) and v.ty == t):
             return SV(t.embed(st, v), t)
         if t == TReal and isinstance(v, SV) and v.ty == TInt:
             return SV(z3.ToReal(v.term), TReal)
+        if t.name == "Nd" and not isinstance(v, (SV, Ref)):
+            from .gmodels import to_val
+
+            tv = to_val(self, v)
+            if tv is not None:
+                return SV(tv, t)
         if t == TVal and not (isinstance(v, SV) and v.ty == TVal):
             try:
                 return SV(TVal.embed(st, v), TVal)
@@ -889,7 +913,35 @@ class Executor:
         return v
 
     def ev_JoinedStr(self, node):
-        # message construction: opaque string (DESIGN §2.2)
+        # f-strings whose parts are all strings: deterministic concatenation; anything else (message construction):
+        # an opaque string (DESIGN §2.2)
+        from .models import str_concat
+
+        parts = []
+        for v in node.values:
+            if isinstance(v, ast.Constant) and isinstance(v.value, str):
+                parts.append(v.value)
+            elif isinstance(v, ast.FormattedValue) and v.format_spec is None and v.conversion == -1 and isinstance(v.value, (ast.Name, ast.Attribute)):
+                try:
+                    x = self.ev(v.value)
+                except (Unsupported, PyRaise):
+                    parts = None
+                    break
+                if isinstance(x, str) or (isinstance(x, SV) and x.ty == TStr):
+                    parts.append(x)
+                else:
+                    parts = None
+                    break
+            else:
+                parts = None
+                break
+        if parts:
+            if all(isinstance(p, str) for p in parts):
+                return "".join(parts)
+            t = TStr.embed(self.st, parts[0])
+            for p in parts[1:]:
+                t = str_concat(t, TStr.embed(self.st, p))
+            return SV(t, TStr)
         return SV(self.st.fresh_const("fstr", TStr.sort()), TStr)
 
     def ev_Name(self, node):
@@ -1216,6 +1268,9 @@ class Executor:
                 ci, expr = S.find_class_attr(o.cls, mattr)
                 if ci is not None:
                     return self.class_attr(ci, mattr, expr)
+                nq = S.find_nested_class(o.cls, attr)
+                if nq is not None:
+                    return ClassV(nq)
                 v = self.models.pyobj_attr(self, obj, o, mattr, lineno)
                 if v is not NotImplemented:
                     return v
@@ -1243,6 +1298,9 @@ class Executor:
             ci, expr = S.find_class_attr(obj.qualname, mattr)
             if ci is not None:
                 return self.class_attr(ci, mattr, expr)
+            nq = S.find_nested_class(obj.qualname, attr)
+            if nq is not None:
+                return ClassV(nq)
             v = self.models.class_attr(self, obj, mattr)
             if v is not NotImplemented:
                 return v
@@ -1612,6 +1670,8 @@ class Executor:
         c0 = C.Ctx(st, st.heap, st.heap, bound)
         for label, f in ct.requires(c0):
             self.check(f, "pre", f"{short}:{label}", lineno, aux=True)
+        for label, f in ct.axioms(c0):
+            st.assume(f)
         old = st.snapshot()
         for path in ct.modifies:
             self.havoc_path(path, bound)
